@@ -592,7 +592,7 @@ __CPROVER_ensures((hdr != NULL && !(data == NULL && data_size != 0) && msg_size 
 __CPROVER_ensures((VF_RV == 0 || VF_RV == EOVERFLOW) ==> (rr_size == NULL || *rr_size == msg_size + 11 + data_size))
 __CPROVER_ensures(VF_RV == 0 ==> (VF_DNS_U8(hdr, msg_size) == 0 &&
     VF_DNS_BE16(hdr, msg_size + 1) == 41 && VF_DNS_BE16(hdr, msg_size + 3) == udp_payload_size &&
-    VF_DNS_U8(hdr, msg_size + 5) == version && VF_DNS_U8(hdr, msg_size + 6) == ex_rcode &&
+    VF_DNS_U8(hdr, msg_size + 5) == ex_rcode && VF_DNS_U8(hdr, msg_size + 6) == version &&	/* RFC 2671 4.6: EXTENDED-RCODE, then VERSION */
     VF_DNS_U8(hdr, msg_size + 7) == (uint8_t)ex_flags && VF_DNS_U8(hdr, msg_size + 8) == (uint8_t)(ex_flags >> 8) &&
     VF_DNS_BE16(hdr, msg_size + 9) == data_size))
 __CPROVER_ensures((VF_RV == 0 && vf_dns_k < data_size) ==>
